@@ -925,6 +925,13 @@ def E_extra_fields_order(repo, clause):
     fills = [c for c in ast.walk(fn.node) if isinstance(c, ast.Call) and call_name(c) == "full" and len(c.args) >= 2]
     ok = len(fills) >= 3 and all(const_value(c.args[1]) == "." for c in fills)
     obs.append(Ob("E12", clause, fn, fills[0] if fills else fn.node, ok, "missing values are filled with '.' (%d fill sites)" % len(fills), slot="dot-fill"))
+    for i, c in enumerate(sorted(fills, key=lambda c: (c.lineno, c.col_offset))):
+        dt = kwarg(c, "dtype")
+        okd = dt is not None and (const_value(dt) in ("object", "O") or ast.unparse(dt) in ("object", "np.object_"))
+        owner = [f for f in [fn] + [g for g in repo.all_fns() if g.outer is fn] if any(x is c for x in ast.walk(f.node))]
+        obs.append(Ob("E12", clause, owner[-1] if owner else fn, c, okd,
+                      "merged extra-field array is an object array (a '<U1' array created from '.' would truncate every longer value stored into it): dtype=%s"
+                      % (ast.unparse(dt) if dt is not None else "(default: fixed-width string of length 1)"), slot="fill-dtype:%d" % i))
     ex = repo.fn("Atoms.extend")
     c = [x for x in calls_in(ex) if isinstance(x.func, ast.Attribute) and x.func.attr == "_extend_extra_fields"]
     ok = len(c) == 1
